@@ -32,23 +32,21 @@ func (p *Prog) hasOwnStoreOp(fn *ssa.Function) bool {
 }
 
 var errHelperMemo = map[*ssa.Function]int{} // 0 unknown, 1 yes, 2 no
+var transparentMemo = map[*ssa.Function]int{}
 
-// errHelper: fn qualifies for the success-projection summary.
-func (p *Prog) errHelper(fn *ssa.Function) bool {
+// transparent: a hand-written, unexported module function without loops, without a store operation or outside keeper call of its
+// own, and without effects other than stores into its own locals — the kind of function an "extract helper" refactoring produces.
+func (p *Prog) transparent(fn *ssa.Function) bool {
 	if fn == nil || fn.Blocks == nil || !InModule(fn) || p.IsGenerated(fn) {
 		return false
 	}
-	if v := errHelperMemo[fn]; v != 0 {
+	if v := transparentMemo[fn]; v != 0 {
 		return v == 1
 	}
 	ok := func() bool {
 		// exported functions are API the rules may name and analyse by body (proof, codec, constructors): they stay atomic.
 		// Extracted helpers are unexported.
 		if n := fn.Name(); n == "" || !(n[0] >= 'a' && n[0] <= 'z') {
-			return false
-		}
-		res := fn.Signature.Results()
-		if res.Len() < 1 || res.At(res.Len()-1).Type().String() != "error" {
 			return false
 		}
 		if len(fn.Blocks) > 40 || p.hasOwnStoreOp(fn) {
@@ -90,14 +88,120 @@ func (p *Prog) errHelper(fn *ssa.Function) bool {
 				}
 			}
 		}
-		return len(successReturns(fn)) > 0
+		return true
 	}()
+	if ok {
+		transparentMemo[fn] = 1
+	} else {
+		transparentMemo[fn] = 2
+	}
+	return ok
+}
+
+// errHelper: fn qualifies for the success-projection summary: transparent, last result an error, some success return.
+func (p *Prog) errHelper(fn *ssa.Function) bool {
+	if !p.transparent(fn) {
+		return false
+	}
+	if v := errHelperMemo[fn]; v != 0 {
+		return v == 1
+	}
+	res := fn.Signature.Results()
+	ok := res.Len() >= 1 && res.At(res.Len()-1).Type().String() == "error" && len(successReturns(fn)) > 0
 	if ok {
 		errHelperMemo[fn] = 1
 	} else {
 		errHelperMemo[fn] = 2
 	}
 	return ok
+}
+
+// subOrigin: the Origin of callee's body at call c, parameters bound to the argument terms, call-site identities prefixed with
+// the site of c (the same scheme successProjection and errorSummary use, so terms agree).
+func (o *Origin) subOrigin(c ssa.CallInstruction, callee *ssa.Function) *Origin {
+	sub := &Origin{p: o.p, fn: callee, env: map[*ssa.Parameter]*Term{}, fvenv: map[*ssa.FreeVar]*Term{},
+		depth: o.depth + 1, memo: map[ssa.Value]*Term{}, busy: map[ssa.Value]bool{},
+		site: o.site + o.p.Pos(c.Pos()) + ">"}
+	cc := c.Common()
+	var args []ssa.Value
+	if cc.IsInvoke() {
+		args = append(args, cc.Value)
+	}
+	args = append(args, cc.Args...)
+	in := c.(ssa.Instruction)
+	for i, prm := range callee.Params {
+		if i < len(args) {
+			if call, ok := c.(*ssa.Call); ok {
+				sub.env[prm] = o.argAt(args[i], call)
+			} else {
+				_ = in
+				sub.env[prm] = o.Of(args[i])
+			}
+		}
+	}
+	return sub
+}
+
+// VCall is a call site of the function under analysis or of a transparent helper it calls (depth <= 3), described in the
+// vocabulary of the function under analysis.
+type VCall struct {
+	Term   *Term               // the call's term, parameters of helpers replaced by the argument terms
+	Instr  ssa.CallInstruction // the real call instruction (possibly inside a helper)
+	Root   ssa.CallInstruction // the call instruction in the analysed function through which it is reached (== Instr when direct)
+	Callee *ssa.Function
+	Name   string
+	Direct bool
+	Always bool // inside helpers: the call dominates every success return of each helper on the chain
+}
+
+// VirtualCalls lists the call sites of o.fn, descending into transparent helpers.
+func (o *Origin) VirtualCalls() []VCall {
+	var out []VCall
+	var walk func(cur *Origin, root ssa.CallInstruction, always bool, depth int)
+	walk = func(cur *Origin, root ssa.CallInstruction, always bool, depth int) {
+		for _, cs := range callSites(cur.fn) {
+			r := root
+			if r == nil {
+				r = cs.Instr
+			}
+			vc := VCall{Instr: cs.Instr, Root: r, Callee: cs.Callee, Name: cs.Name, Direct: root == nil, Always: always}
+			if c, ok := cs.Instr.(*ssa.Call); ok {
+				save := cur.NoInline
+				vc.Term = cur.callAtomic(c)
+				cur.NoInline = save
+			}
+			out = append(out, vc)
+			if cs.Callee != nil && depth < 3 && cs.Callee != cur.fn && o.p.transparent(cs.Callee) {
+				if _, isDefer := cs.Instr.(*ssa.Defer); isDefer {
+					continue
+				}
+				sub := cur.subOrigin(cs.Instr, cs.Callee)
+				// "always": the inner call sites that dominate every success return of the helper
+				walkHelper(sub, r, always, depth+1, walk, &out)
+			}
+		}
+	}
+	walk(o, nil, true, 0)
+	return out
+}
+
+func walkHelper(sub *Origin, root ssa.CallInstruction, always bool, depth int, walk func(*Origin, ssa.CallInstruction, bool, int), out *[]VCall) {
+	before := len(*out)
+	walk(sub, root, always, depth)
+	// fix the Always flag of the entries just added at this level: they must dominate all success returns of sub.fn
+	rets := successReturns(sub.fn)
+	for i := before; i < len(*out); i++ {
+		vc := &(*out)[i]
+		in, ok := vc.Instr.(ssa.Instruction)
+		if !ok || in.Parent() != sub.fn {
+			continue
+		}
+		for _, r := range rets {
+			if !sub.dominates(in, r) {
+				vc.Always = false
+			}
+		}
+	}
 }
 
 // successProjection builds the tuple term of a call to an errHelper: non-error components are the common success-return terms
@@ -278,3 +382,71 @@ func (fa *Facts) errOfHelperCall(v ssa.Value) (*ssa.Call, *ssa.Function, bool) {
 }
 
 var _ = types.Typ
+
+// panicSummary: the condition (in the caller's vocabulary) under which a call to the transparent function callee reaches one of
+// its explicit panics; nil when it cannot be computed.
+func (fa *Facts) panicSummary(callee *ssa.Function, call ssa.CallInstruction, o *Origin, depth int) *Formula {
+	if !fa.p.transparent(callee) || depth >= 4 {
+		return nil
+	}
+	sub := o.subOrigin(call, callee)
+	subFacts := &Facts{p: fa.p, fn: callee, o: sub, memo: map[*ssa.BasicBlock]*Formula{}, ErrExpand: func(*Formula) int { return 2 }}
+	var disj []*Formula
+	count := 0
+	ok := true
+	var path []*ssa.BasicBlock
+	var dfs func(cur *ssa.BasicBlock, conj []*Formula)
+	dfs = func(cur *ssa.BasicBlock, conj []*Formula) {
+		if !ok {
+			return
+		}
+		path = append(path, cur)
+		defer func() { path = path[:len(path)-1] }()
+		// nested panicking helpers called in this block
+		for _, in := range cur.Instrs {
+			if ci, isCall := in.(ssa.CallInstruction); isCall {
+				if g := ci.Common().StaticCallee(); g != nil && g != callee && fa.p.transparent(g) && hasPanic(g) {
+					if inner := subFacts.panicSummary(g, ci, sub, depth+1); inner != nil {
+						disj = append(disj, fAnd(append(append([]*Formula(nil), conj...), inner)...))
+					} else {
+						ok = false
+					}
+				}
+			}
+		}
+		last := cur.Instrs[len(cur.Instrs)-1]
+		switch t := last.(type) {
+		case *ssa.Panic:
+			count++
+			disj = append(disj, fAnd(conj...))
+		case *ssa.Return:
+		case *ssa.If:
+			c := subFacts.valueFormula(t.Cond, sub, path, depth+1)
+			dfs(cur.Succs[0], append(append([]*Formula(nil), conj...), c))
+			dfs(cur.Succs[1], append(append([]*Formula(nil), conj...), fNot(c)))
+		case *ssa.Jump:
+			dfs(cur.Succs[0], conj)
+		default:
+			ok = false
+		}
+		if count > maxPaths {
+			ok = false
+		}
+	}
+	dfs(callee.Blocks[0], nil)
+	if !ok {
+		return nil
+	}
+	return fOr(disj...)
+}
+
+func hasPanic(fn *ssa.Function) bool {
+	for _, b := range fn.Blocks {
+		for _, in := range b.Instrs {
+			if _, ok := in.(*ssa.Panic); ok {
+				return true
+			}
+		}
+	}
+	return false
+}
